@@ -28,7 +28,9 @@ import (
 	"bytes"
 	"fmt"
 	"reflect"
+	"strings"
 	"sync"
+	"unicode/utf8"
 
 	"github.com/TheManticoreProject/Manticore/network/smb/smb_v10/dialects"
 	"github.com/TheManticoreProject/Manticore/network/smb/smb_v10/message/commands/andx"
@@ -512,6 +514,49 @@ func typeLevel(c *vf.Ctx) {
 		c.Check(fmt.Sprintf("C05/dialects/Unmarshal/n=%d", n), !p && uerr == nil && rn == len(want) && reflect.DeepEqual(e.Dialects, names[:n]), func() string {
 			return fmt.Sprintf("Dialects.Unmarshal(%x) = %q (%d,%v %s %s), want %q", want, e.Dialects, rn, uerr, msg, where, names[:n])
 		})
+	}
+	// SMB_DIRECTORY_INFORMATION: FileName is a FIXED-WIDTH field (12 OEM bytes, space padded): whatever name is
+	// accepted, the entry has the size of every other entry and carries the name's bytes followed by spaces at the
+	// same place — otherwise every following entry of a SEARCH/FIND data block shifts. Names are counted in BYTES.
+	{
+		mk := func(name []byte) ([]byte, error, bool, string) {
+			d := types.NewSMB_DIRECTORY_INFORMATION()
+			d.FileName.SetString(string(name))
+			var out []byte
+			var err error
+			p, msg, where := vf.Try(func() { out, err = d.Marshal() })
+			return out, err, p, msg + " " + where
+		}
+		ref12 := []byte("ABCDEFGH.TXT")
+		base, berr, bp, _ := mk(ref12)
+		off := bytes.Index(base, ref12)
+		if c.Check("C05/SMB_DIRECTORY_INFORMATION/Marshal/twelve-byte-name-is-emitted", berr == nil && !bp && off >= 0, func() string {
+			return fmt.Sprintf("SMB_DIRECTORY_INFORMATION{FileName:%q}.Marshal() = %x err=%v", ref12, base, berr)
+		}) {
+			var names [][]byte
+			for n := 0; n <= 14; n++ {
+				names = append(names, enum.Fill(n, 'a'), enum.Fill(n, 0xFF))
+			}
+			// valid multi-byte UTF-8 inside the name (OEM bytes that happen to form characters): characters != bytes
+			for _, ch := range []string{"\u00c9", "\u20ac", "\U0001F600", "\u0416"} {
+				for total := len(ch); total <= 14; total++ {
+					names = append(names, append(enum.Fill(total-len(ch), 'a'), ch...), append([]byte(ch), enum.Fill(total-len(ch), 'a')...))
+				}
+				for k := 1; k*len(ch) <= 16; k++ {
+					names = append(names, []byte(strings.Repeat(ch, k)))
+				}
+			}
+			names = append(names, []byte("\u00c4\u00d6\u00dc\u00e4\u00f6\u00fc\u00df.txt"))
+			for _, nm := range names {
+				out, err, p, pm := mk(nm)
+				c.Case([]byte("dirinfo-name"), nm)
+				want := append(append([]byte{}, nm...), enum.Fill(max(0, 12-len(nm)), ' ')...)
+				ok := !p && (err != nil || (len(nm) <= 12 && len(out) == len(base) && bytes.Equal(out[off:off+12], want)))
+				c.Check("C05/SMB_DIRECTORY_INFORMATION/Marshal/FileName-field-has-fixed-width-of-12-bytes", ok, func() string {
+					return fmt.Sprintf("SMB_DIRECTORY_INFORMATION{FileName:%q (%d bytes, %d characters)}.Marshal() = %x (%d bytes) err=%v panic=%v %s; the entry with a 12-byte name has %d bytes with the name at offset %d", nm, len(nm), utf8.RuneCount(nm), out, len(out), err, p, pm, len(base), off)
+				})
+			}
+		}
 	}
 	// SMB_FILE_ATTRIBUTES: little-endian USHORT
 	for _, v := range append(enum.ByteDistinct(2), 0x0020, 0x0001, 0xFFFF) {
